@@ -220,3 +220,104 @@ def run_full_client(env, rng, out, classes):
     pass
   env.advance(0.2)
   out.extra['full_client_calls'] = out.extra.get('full_client_calls', 0) + len(calls)
+
+
+def run_reload(env, rng, out, classes):
+  """Two brokers, one topic whose partitions they lead.  A Put is answered with a 'not the leader'
+  error; the metadata the client then reloads says that partition has no leader any more, so the
+  retry has to go to another partition, on the other broker.  Every produce request a broker
+  receives must name a partition that broker leads at that moment, and the caller gets the offset
+  the broker assigned to the request that was finally accepted."""
+  from scales.kafka import Kafka
+  from . import simnet, servers
+  if _NET[0] is None:
+    _NET[0] = simnet.Network(env)
+    _NET[0].install()
+  net = _NET[0]
+  net.reset()
+  _PORT[0] += 2
+  pa, pb = _PORT[0] - 1, _PORT[0]
+
+  class Policy(servers.DefaultPolicy):
+    def __call__(self, server, conn, req):
+      return {'delay': rng.choice([0.0005, 0.002]) * (1 + rng.random())}
+  brokers = {1: servers.KafkaBroker(net, 'kra', pa, Policy()), 2: servers.KafkaBroker(net, 'krb', pb, Policy())}
+  nparts = rng.choice([2, 2, 4])
+  leaders = {pid: 1 + (pid % 2) for pid in range(nparts)}
+
+  def publish():
+    md = ([(1, b'kra', pa), (2, b'krb', pb)],
+          [(0, b'rtopic', [(0, pid, leaders[pid], [1, 2], [1, 2]) for pid in sorted(leaders)])])
+    for b in brokers.values():
+      b.metadata = md
+  publish()
+  seen = {}
+  wrong = []
+
+  def make_error_for(node):
+    def error_for(req):
+      t = req['kafka']['topics'][0]
+      pid = t['partitions'][0]['partition']
+      msgs = t['partitions'][0]['messages']
+      key = msgs[0]['value'] if msgs else None
+      if leaders.get(pid) != node:
+        wrong.append((node, pid, key, dict(leaders)))
+        return 6
+      seen[key] = seen.get(key, 0) + 1
+      if key in moving and seen[key] == 1:
+        # this partition's leader goes away: answer 'not the leader', the metadata now says so too
+        leaders[pid] = -1
+        publish()
+        return 6
+      return 0
+    return error_for
+  for node, b in brokers.items():
+    b.error_for = make_error_for(node)
+  moving = set()
+  classes.add('reload')
+  out.obligations += 1
+  try:
+    client = Kafka.NewBuilder().SetUri('tcp://kra:%d' % pa).SetName('krel%d' % pa).SetTimeout(3.0).Build()
+  except Exception as e:  # noqa
+    out.violate('reload:build-failed', 'building a Kafka client against healthy brokers failed: %r' % e, {})
+    return
+  calls = []
+  for i in range(rng.choice([2, 3])):
+    payload = b'rl-%d-%d' % (i, rng.getrandbits(30))
+    if i > 0 and len([l for l in leaders.values() if l != -1]) > 1:
+      moving.add(payload)
+      env.advance(11.0)        # past the router's refresh rate: the error makes it reload the metadata
+    try:
+      ar = client.Put_async(b'rtopic', [payload])
+    except Exception as e:  # noqa
+      out.violate('reload:call-raised', 'Put_async raised %r' % e, {})
+      continue
+    calls.append((payload, ar))
+    env.advance(2.0)
+  env.advance(4.0)
+  for node, pid, key, ld in wrong[:2]:
+    out.violate('reload:partition-not-led-by-receiver', 'broker %d received a produce request (payload %r) naming partition %d, '
+                'which it does not lead (leaders %r): the request does not name the partition it was routed to' % (
+                  node, key, pid, ld), {})
+  for payload, ar in calls:
+    out.obligations += 1
+    accepted = [r for b in brokers.values() for r in b.requests
+                if r['kafka']['api_key'] == 0 and r.get('error_code') == 0 and
+                r['kafka']['topics'][0]['partitions'][0]['messages'] and
+                r['kafka']['topics'][0]['partitions'][0]['messages'][0]['value'] == payload]
+    if payload in moving and seen.get(payload, 0) >= 2:
+      classes.add('reload:retried-on-other-partition')
+    if not ar.ready():
+      out.violate('reload:no-reply', 'Put(%r) never completed' % payload, {})
+    elif ar.exception is not None:
+      if not wrong:
+        out.violate('reload:error', 'Put(%r) failed with %r although a partition with a leader was left' % (
+          payload, getattr(ar.exception, 'inner_exception', None) or ar.exception), {})
+    elif not accepted or len(ar.value) != 1 or ar.value[0].offset != accepted[-1]['offset']:
+      out.violate('reload:wrong-reply', 'Put(%r) returned %r, the accepting broker assigned offset %r' % (
+        payload, ar.value, accepted and accepted[-1]['offset']), {})
+  try:
+    client.DispatcherClose()
+  except Exception:  # noqa
+    pass
+  env.advance(0.2)
